@@ -188,5 +188,13 @@ theorem tokenize_fuel_indep (pu : Bool) : ∀ (f : Nat) (inp : Str), inp.length 
       simp only
       rw [ih rest (by omega)]
 
+theorem tokenize_fuel_any (pu : Bool) (inp : Str) : ∀ k, tokenize pu (inp.length + 1 + k) inp = tokenize pu (inp.length + 1) inp := by
+  intro k
+  induction k with
+  | zero => rfl
+  | succ k ih =>
+    rw [← ih, show inp.length + 1 + (k + 1) = (inp.length + 1 + k) + 1 by omega]
+    exact (tokenize_fuel_indep pu _ inp (by omega)).symm
+
 end Aux
 end DendroModel.C02
